@@ -87,7 +87,8 @@ theorem svrp_skill_le_best (techMax : Int) (p2 q2 : Nat) (h0 : 0 ≤ techMax) (h
 /-- **center_in_bounds**: the constant of the `"center"` distribution, `(high + low)/2`, lies in `[low, high]`
 for every box (fixed upstream in 4726d9c; before it was `(high − low)/2`) -/
 theorem center_in_bounds (lo hi : Int) (h : lo ≤ hi) : 2 * lo ≤ centerTwice lo hi ∧ centerTwice lo hi ≤ 2 * hi := by
-  unfold centerTwice; omega
+  have hmid : Params.genCenterIsMid = true := by decide   -- obligation on the extracted formula
+  unfold centerTwice; rw [hmid]; simp only [if_true]; omega
 
 example : centerTwice 2 3 = 5 := by decide
 
